@@ -167,6 +167,30 @@ func ruleZeroWidthGuard(c *Ctx, rule string) {
 				if fa, ok := st.Addr.(*ssa.FieldAddr); ok && fieldName(deref(fa.X.Type()), fa.Field) == "loopMatchIndexStart" {
 					if n, ok := deref(fa.X.Type()).(*types.Named); ok && n.Obj().Name() == "LoopState" {
 						// composite-literal copies (LoopState.Copy) carry the old value
+						if prm, isParam := st.Val.(*ssa.Parameter); isParam {
+							// a helper that records what it is handed: the value is what its call sites pass
+							idx := -1
+							for i, q := range f.Params {
+								if q == prm {
+									idx = i
+								}
+							}
+							allLen, ncs := idx >= 0, 0
+							for _, g := range c.SrcFuncs("engine") {
+								for _, cs := range callsTo(g, f) {
+									ncs++
+									a := exprStr(cs.Call.Args[idx])
+									if !(strings.HasPrefix(a, "len(") && strings.HasSuffix(a, ".currentMatch)")) {
+										allLen = false
+										vals = append(vals, a)
+									}
+								}
+							}
+							if allLen && ncs > 0 {
+								vals = append(vals, "param-ok:"+prm.Name())
+							}
+							return
+						}
 						vals = append(vals, exprStr(st.Val))
 					}
 				}
@@ -175,7 +199,7 @@ func ruleZeroWidthGuard(c *Ctx, rule string) {
 	}
 	bad := []string{}
 	for _, v := range vals {
-		if v != "len(es.currentMatch)" && v != "ls.loopMatchIndexStart" {
+		if v != "len(es.currentMatch)" && v != "ls.loopMatchIndexStart" && !strings.HasPrefix(v, "param-ok:") {
 			bad = append(bad, v)
 		}
 	}
@@ -210,6 +234,20 @@ func ruleZeroWidthGuard(c *Ctx, rule string) {
 			walk = func(b *ssa.BasicBlock, from int) {
 				for i := from; i < len(b.Instrs); i++ {
 					switch x := b.Instrs[i].(type) {
+					case *ssa.Call:
+						// a helper of the record that stores the start on each of its paths (startIteration, openIteration)
+						if h := x.Call.StaticCallee(); h != nil && c.isRepoFn(h) && len(h.Blocks) > 0 {
+							rec := false
+							hpd := NewPostDom(h)
+							instrsOf(h, func(y ssa.Instruction) {
+								if st2, ok := y.(*ssa.Store); ok && isLoopField(st2.Addr, "loopMatchIndexStart") && hpd.PostDominates(st2.Block(), h.Blocks[0]) {
+									rec = true
+								}
+							})
+							if rec {
+								return
+							}
+						}
 					case *ssa.Store:
 						if isLoopField(x.Addr, "loopMatchIndexStart") {
 							return
@@ -255,6 +293,35 @@ func ruleZeroWidthGuard(c *Ctx, rule string) {
 	instrsOf(chkF, func(in ssa.Instruction) {
 		ret, ok := in.(*ssa.Return)
 		if !ok || len(ret.Results) != 1 {
+			return
+		}
+		// `top.consumedNothing(len(es.currentMatch))`: a method of the record that makes the comparison with what it is handed
+		if hc, ok := ret.Results[0].(*ssa.Call); ok {
+			h := hc.Call.StaticCallee()
+			if h != nil && c.isRepoFn(h) && len(h.Params) == 2 && len(hc.Call.Args) == 2 && c.isLoopStackTop(hc.Call.Args[0], 0) {
+				a1 := exprStr(hc.Call.Args[1])
+				cmpOK := false
+				instrsOf(h, func(y ssa.Instruction) {
+					r2, ok := y.(*ssa.Return)
+					if !ok || len(r2.Results) != 1 {
+						return
+					}
+					hb, ok := r2.Results[0].(*ssa.BinOp)
+					if !ok || hb.Op != token.EQL {
+						return
+					}
+					for _, pr := range [][2]ssa.Value{{hb.X, hb.Y}, {hb.Y, hb.X}} {
+						if u, ok := pr[0].(*ssa.UnOp); ok {
+							if fa, ok := u.X.(*ssa.FieldAddr); ok && isLoopField(fa, "loopMatchIndexStart") && fa.X == ssa.Value(h.Params[0]) && pr[1] == ssa.Value(h.Params[1]) {
+								cmpOK = true
+							}
+						}
+					}
+				})
+				if cmpOK && strings.HasPrefix(a1, "len(") && strings.HasSuffix(a1, ".currentMatch)") {
+					okCmp = true
+				}
+			}
 			return
 		}
 		b, ok := ret.Results[0].(*ssa.BinOp)
@@ -422,7 +489,25 @@ func (c *Ctx) alwaysMoves() (map[*ssa.Function]bool, map[*ssa.Function]string) {
 		}
 	}
 	why := map[*ssa.Function]string{}
-	check := func(fn *ssa.Function, stateVal func(ssa.Value) bool) (bool, string) {
+	var check func(fn *ssa.Function, stateVal func(ssa.Value) bool) (bool, string)
+	closureDepth := 0
+	closureMoves := func(cl *ssa.Function) bool {
+		if closureDepth > 1 || len(cl.Blocks) == 0 {
+			return false
+		}
+		closureDepth++
+		defer func() { closureDepth-- }()
+		ok, _ := check(cl, func(v ssa.Value) bool {
+			u, isLoad := v.(*ssa.UnOp)
+			if !isLoad || u.Op != token.MUL {
+				return false
+			}
+			_, isFree := u.X.(*ssa.FreeVar)
+			return isFree && stT != nil && types.Identical(deref(u.Type()), stT)
+		})
+		return ok
+	}
+	check = func(fn *ssa.Function, stateVal func(ssa.Value) bool) (bool, string) {
 		// must-analysis: moved at every return
 		in := map[*ssa.BasicBlock]bool{}
 		out := map[*ssa.BasicBlock]bool{}
@@ -430,6 +515,7 @@ func (c *Ctx) alwaysMoves() (map[*ssa.Function]bool, map[*ssa.Function]string) {
 			in[b], out[b] = true, true
 		}
 		in[fn.Blocks[0]] = false
+		dead := exhaustedEnumEdges(fn)
 		changed := true
 		for changed {
 			changed = false
@@ -439,6 +525,9 @@ func (c *Ctx) alwaysMoves() (map[*ssa.Function]bool, map[*ssa.Function]string) {
 					v = false
 				} else {
 					for _, p := range b.Preds {
+						if dead[[2]*ssa.BasicBlock{p, b}] {
+							continue // the fall-out of a switch that has a case for every value its tag can take
+						}
 						if !out[p] {
 							v = false
 						}
@@ -449,6 +538,10 @@ func (c *Ctx) alwaysMoves() (map[*ssa.Function]bool, map[*ssa.Function]string) {
 				}
 				o := v
 				for _, x := range b.Instrs {
+					// a closure of this function that moves the state variable it captured, on each of its paths
+					if sc := staticCallee(x); sc != nil && sc.Parent() == fn && closureMoves(sc) {
+						o = true
+					}
 					if sc := staticCallee(x); sc != nil && len(x.(ssa.CallInstruction).Common().Args) > 0 && stateVal(x.(ssa.CallInstruction).Common().Args[0]) {
 						if base[sc.Name()] && moves[sc] || (moves[sc] && !base[sc.Name()]) {
 							o = true
@@ -562,7 +655,31 @@ func ruleHandlersMove(c *Ctx, rule string) {
 			}
 			continue
 		}
-		ok, why := movesCheck(h, func(v ssa.Value) bool { return v == copyVal })
+		// the variable that holds the copy may live in memory (a closure of the handler captures it)
+		holdsCopy := func(v ssa.Value) bool {
+			if v == copyVal {
+				return true
+			}
+			u, isLoad := v.(*ssa.UnOp)
+			if !isLoad || u.Op != token.MUL {
+				return false
+			}
+			a, isAlloc := u.X.(*ssa.Alloc)
+			if !isAlloc {
+				return false
+			}
+			n := 0
+			for _, ref := range *a.Referrers() {
+				if st, ok := ref.(*ssa.Store); ok && st.Addr == ssa.Value(a) {
+					if st.Val != copyVal {
+						return false
+					}
+					n++
+				}
+			}
+			return n > 0
+		}
+		ok, why := movesCheck(h, holdsCopy)
 		if ok {
 			ob.OKnt("every return is preceded by NEXT/JUMP/RETURN/BACKTRACK/FAIL (or a MATCH* method that always does one of them) on the returned state")
 		} else {
@@ -607,6 +724,88 @@ func ruleLoopIdentity(c *Ctx, rule string) {
 	joined := strings.Join(conds, " ; ")
 	hasId := strings.Contains(joined, ".loopId != loopId") || strings.Contains(joined, ".loopId == loopId")
 	hasLvl := strings.Contains(joined, ".callLevel != int(es.callStack.Size())") || strings.Contains(joined, ".callLevel == int(es.callStack.Size())")
+	if !hasLvl {
+		// the call depth may come from an accessor: es.callDepth() { return int(es.callStack.Size()) }
+		instrsOf(fn, func(in ssa.Instruction) {
+			b, ok := in.(*ssa.BinOp)
+			if !ok || (b.Op != token.EQL && b.Op != token.NEQ) {
+				return
+			}
+			for _, pr := range [][2]ssa.Value{{b.X, b.Y}, {b.Y, b.X}} {
+				if !strings.HasSuffix(exprStr(pr[0]), ".callLevel") {
+					continue
+				}
+				if call, ok := pr[1].(*ssa.Call); ok {
+					if h := call.Call.StaticCallee(); h != nil && c.isRepoFn(h) && len(h.Blocks) > 0 {
+						okRet := true
+						instrsOf(h, func(y ssa.Instruction) {
+							if ret, ok := y.(*ssa.Return); ok {
+								if len(ret.Results) != 1 || !strings.Contains(exprStr(ret.Results[0]), "callStack.Size()") {
+									okRet = false
+								}
+							}
+						})
+						if okRet {
+							hasLvl = true
+						}
+					}
+				}
+			}
+		})
+	}
+	if !hasId || !hasLvl {
+		// the comparison may be made by a method of the loop record that is handed the id and the depth
+		instrsOf(fn, func(in ssa.Instruction) {
+			call, ok := in.(*ssa.Call)
+			if !ok {
+				return
+			}
+			h := call.Call.StaticCallee()
+			if h == nil || !c.isRepoFn(h) || len(h.Blocks) == 0 || h.Pkg != fn.Pkg {
+				return
+			}
+			instrsOf(h, func(y ssa.Instruction) {
+				b, ok := y.(*ssa.BinOp)
+				if !ok || (b.Op != token.EQL && b.Op != token.NEQ) {
+					return
+				}
+				for _, pr := range [][2]ssa.Value{{b.X, b.Y}, {b.Y, b.X}} {
+					u, ok := pr[0].(*ssa.UnOp)
+					if !ok {
+						continue
+					}
+					fa, ok := u.X.(*ssa.FieldAddr)
+					if !ok {
+						continue
+					}
+					prm, ok := pr[1].(*ssa.Parameter)
+					if !ok {
+						continue
+					}
+					pi := -1
+					for i, q := range h.Params {
+						if q == prm {
+							pi = i
+						}
+					}
+					if pi < 0 || pi >= len(call.Call.Args) {
+						continue
+					}
+					arg := call.Call.Args[pi]
+					switch fieldName(deref(fa.X.Type()), fa.Field) {
+					case "loopId":
+						if p2, ok := arg.(*ssa.Parameter); ok && p2.Name() == "loopId" {
+							hasId = true
+						}
+					case "callLevel":
+						if strings.Contains(exprStr(arg), "callStack.Size()") {
+							hasLvl = true
+						}
+					}
+				}
+			})
+		})
+	}
 	ob.Check(hasId && hasLvl, "tests: "+joined, "the tests are ["+joined+"]; both the loop id and the call depth must be compared, otherwise a recursive call re-enters the caller's loop state")
 	ob.Nontrivial = true
 }
@@ -990,6 +1189,39 @@ func ruleReaderLifetime(c *Ctx, rule string) {
 			})
 		}
 	}
+	// a function that answers (reader, opened bool) - a reader it constructed together with true, or one it was handed together with
+	// false - leaves the closing to its caller, under that flag
+	flagSources := map[*ssa.Function]bool{}
+	for _, fn := range c.SrcFuncs("engine") {
+		if ctors[fn] || fn.Signature.Results().Len() != 2 {
+			continue
+		}
+		if b, ok := fn.Signature.Results().At(1).Type().Underlying().(*types.Basic); !ok || b.Kind() != types.Bool {
+			continue
+		}
+		nret, okAll, fresh := 0, true, 0
+		instrsOf(fn, func(in ssa.Instruction) {
+			ret, ok := in.(*ssa.Return)
+			if !ok || len(ret.Results) != 2 {
+				return
+			}
+			nret++
+			isCtor := false
+			if call, ok := ret.Results[0].(*ssa.Call); ok && ctors[call.Call.StaticCallee()] {
+				isCtor = true
+			}
+			k, isConst := ret.Results[1].(*ssa.Const)
+			if !isConst || k.Value == nil || k.Value.Kind() != constant.Bool || constant.BoolVal(k.Value) != isCtor {
+				okAll = false
+			}
+			if isCtor {
+				fresh++
+			}
+		})
+		if nret > 0 && okAll && fresh > 0 {
+			flagSources[fn] = true
+		}
+	}
 	// a function that closes the reader it is handed on every path takes over the duty of closing it: for its callers the call is the
 	// Close. closers[f] = index of that parameter.
 	closers := map[*ssa.Function]int{}
@@ -1020,11 +1252,66 @@ func ruleReaderLifetime(c *Ctx, rule string) {
 	}
 	n := 0
 	for _, fn := range c.SrcFuncs("engine") {
-		if ctors[fn] {
+		if ctors[fn] || flagSources[fn] {
 			continue
 		}
 		pd := NewPostDom(fn)
 		k := 0
+		// readers obtained together with an `opened` flag: closed under exactly that flag
+		instrsOf(fn, func(in ssa.Instruction) {
+			call, ok := in.(*ssa.Call)
+			if !ok || !flagSources[call.Call.StaticCallee()] {
+				return
+			}
+			n++
+			k++
+			ob := r.Ob(rule, fmt.Sprintf("%s: reader #%d (from %s, with an `opened` flag) is closed when the flag says it was opened here", fnName(fn), k, call.Call.StaticCallee().Name()), c.pos(call.Pos()))
+			var rd, flag ssa.Value
+			for _, ref := range *call.Referrers() {
+				if ex, ok := ref.(*ssa.Extract); ok {
+					if ex.Index == 0 {
+						rd = ex
+					} else {
+						flag = ex
+					}
+				}
+			}
+			if rd == nil || flag == nil {
+				ob.Bad("the reader or its `opened` flag is dropped: nobody can close the reader")
+				return
+			}
+			base := map[*ssa.If]bool{}
+			for _, l := range domConds(fn, call.Block()) {
+				base[l.If] = true
+			}
+			closed := false
+			instrsOf(fn, func(x ssa.Instruction) {
+				var cc *ssa.CallCommon
+				switch y := x.(type) {
+				case *ssa.Call:
+					cc = &y.Call
+				case *ssa.Defer:
+					cc = &y.Call
+				}
+				if cc == nil || cc.StaticCallee() != closeF || len(cc.Args) != 1 || cc.Args[0] != rd {
+					return
+				}
+				var own []CondLit
+				for _, l := range domConds(fn, x.Block()) {
+					if !base[l.If] {
+						own = append(own, l)
+					}
+				}
+				if len(own) == 1 && own[0].Cond == flag && own[0].Pol && pd.PostDominates(own[0].If.Block(), call.Block()) {
+					closed = true
+				}
+			})
+			if closed {
+				ob.OKnt("Close (or a deferred Close) on the reader is executed exactly when the flag is set, on every path")
+			} else {
+				ob.Bad("no Close on this reader under exactly its `opened` flag: a reader opened by the helper stays open (or one that belongs to the caller is closed)")
+			}
+		})
 		// values that may hold a reader created here: constructor calls and phis of them
 		instrsOf(fn, func(in ssa.Instruction) {
 			call, ok := in.(*ssa.Call)
@@ -1780,7 +2067,21 @@ func ruleBacktrackResumesTop(c *Ctx, rule string) {
 				if problem != "" {
 					return
 				}
-				for _, s := range b.Succs {
+				for si, s := range b.Succs {
+					// the edge on which the popped checkpoint is nil: the stack was empty, nothing was taken off it
+					if iff, ok := b.Instrs[len(b.Instrs)-1].(*ssa.If); ok {
+						if cmp, ok := iff.Cond.(*ssa.BinOp); ok && (cmp.X == ssa.Value(pop) || cmp.Y == ssa.Value(pop)) {
+							other := cmp.Y
+							if cmp.X != ssa.Value(pop) {
+								other = cmp.X
+							}
+							if k, isConst := other.(*ssa.Const); isConst && k.IsNil() {
+								if cmp.Op == token.EQL && si == 0 || cmp.Op == token.NEQ && si == 1 {
+									continue
+								}
+							}
+						}
+					}
 					if !seen[s] {
 						seen[s] = true
 						walk(s, 0)
@@ -2490,6 +2791,19 @@ func ruleJumpsGoForward(c *Ctx, rule string) {
 				if u, ok := a.x.(*ssa.UnOp); ok {
 					if ia, ok := u.X.(*ssa.IndexAddr); ok {
 						src[ia.X] = true
+						// ... and so does every instruction list that was put into such a list of lists earlier (two-pass generation:
+						// lengths are summed while the alternatives are collected, the jumps are emitted when they are written out)
+						instrsOf(fn, func(in ssa.Instruction) {
+							st, ok := in.(*ssa.Store)
+							if !ok || !types.Identical(st.Val.Type(), a.x.Type()) {
+								return
+							}
+							if ea, ok := st.Addr.(*ssa.IndexAddr); ok {
+								if _, isLit := ea.X.(*ssa.Alloc); isLit {
+									src[st.Val] = true
+								}
+							}
+						})
 					}
 				}
 				deps := dataDeps(fn, src)
@@ -2521,4 +2835,76 @@ func (c *Ctx) trustedThroughOwner(fn *ssa.Function, trusted map[string]string) s
 		}
 	}
 	return ""
+}
+
+// exhaustedEnumEdges: the `no case matched` edge of a chain of tests tag == K1, tag == K2, ... is infeasible when the tag is the
+// result of a function of the repository that returns nothing but constants and every one of them has been tested.
+func exhaustedEnumEdges(fn *ssa.Function) map[[2]*ssa.BasicBlock]bool {
+	dead := map[[2]*ssa.BasicBlock]bool{}
+	valuesOf := func(v ssa.Value) map[string]bool {
+		call, ok := v.(*ssa.Call)
+		if !ok {
+			return nil
+		}
+		g := call.Call.StaticCallee()
+		if g == nil || len(g.Blocks) == 0 {
+			return nil
+		}
+		set := map[string]bool{}
+		okAll := true
+		instrsOf(g, func(in ssa.Instruction) {
+			if ret, isRet := in.(*ssa.Return); isRet {
+				if len(ret.Results) != 1 {
+					okAll = false
+					return
+				}
+				k, isConst := ret.Results[0].(*ssa.Const)
+				if !isConst || k.Value == nil {
+					okAll = false
+					return
+				}
+				set[k.Value.ExactString()] = true
+			}
+		})
+		if !okAll || len(set) == 0 {
+			return nil
+		}
+		return set
+	}
+	for _, b := range fn.Blocks {
+		iff, ok := b.Instrs[len(b.Instrs)-1].(*ssa.If)
+		if !ok {
+			continue
+		}
+		cmp, ok := iff.Cond.(*ssa.BinOp)
+		if !ok || cmp.Op != token.EQL {
+			continue
+		}
+		k, ok := cmp.Y.(*ssa.Const)
+		if !ok || k.Value == nil {
+			continue
+		}
+		set := valuesOf(cmp.X)
+		if set == nil {
+			continue
+		}
+		tested := map[string]bool{k.Value.ExactString(): true}
+		for _, l := range domConds(fn, b) {
+			if c2, ok := l.Cond.(*ssa.BinOp); ok && c2.Op == token.EQL && c2.X == cmp.X && !l.Pol {
+				if k2, ok := c2.Y.(*ssa.Const); ok && k2.Value != nil {
+					tested[k2.Value.ExactString()] = true
+				}
+			}
+		}
+		all := true
+		for v := range set {
+			if !tested[v] {
+				all = false
+			}
+		}
+		if all {
+			dead[[2]*ssa.BasicBlock{b, b.Succs[1]}] = true
+		}
+	}
+	return dead
 }
